@@ -12,6 +12,10 @@ CONSTANTS Balls, Devs, Cap, Target, Shootable,   \* Shootable: devices a playfie
           EntranceCounted,   \* devices that count balls by an entrance switch (a ball can roll over it and bounce back)
           Saved,       \* TRUE: a game with an unlimited ball save is running - every drained ball is owed back to the playfield
           MaxAtt,      \* [Devs -> Nat] max_eject_attempts of each device (0: unlimited)
+          Alt,         \* [Devs -> SUBSET (Devs \cup {"pf"})] further eject targets of a device (a diverter behind it); MPF picks one per eject
+          Losable,     \* devices whose ejected ball can go astray on the way to another device: it never arrives there, it ends up
+                       \* loose on the playfield without anybody seeing it (ball_missing handling)
+          Requestable, \* devices that ask for balls for themselves (device.request_ball(): lock / staging requests)
           Holdable,    \* devices whose balldevice_<d>_ball_eject_attempt queue event a handler of the environment may hold back
              \* Cap[d] capacity, Target[d] where d ejects to ("pf" = playfield)
           MaxOps
@@ -23,11 +27,16 @@ VARIABLES loc,      \* [Balls -> <<"at", p, p, "ok">> | <<"transit", src, dst, k
           broken,   \* devices that have reported themselves broken (balldevice_<name>_broken)
           att,      \* [Devs -> "free" | "armed" | "held"]: the environment's handler of the device's eject_attempt queue event -
                     \* not holding / will hold the next attempt / is holding an attempt MPF has posted (queue.wait(), not cleared yet)
+          dest,     \* [Devs -> place] where MPF aimed the last fired eject of the device (Target[d] while the device is not fired)
+          wantd,    \* [Devs -> Nat] balls the environment has asked to be delivered INTO the device (and to stay there)
+          stray,    \* balls that went astray and lie on the playfield (or roll there) unrequested, until they drain
+          everlost, \* TRUE once a ball has gone astray: from then on which request a stray ball counts for (none, or the one whose
+                    \* path ended on the playfield) is MPF's choice, and `want` is only a lower bound of what is owed
           nops, act
-vars == <<loc, fired, want, rel, fails, broken, att, nops, act>>
+vars == <<loc, fired, want, rel, fails, broken, att, dest, wantd, stray, everlost, nops, act>>
 Home == "bd_trough"     \* the trough: where all balls start and drains end
 At(p) == <<"at", p, p, "ok">>
-Init == /\ loc = [b \in Balls |-> At(Home)] /\ fired = {} /\ want = 0 /\ rel = [d \in Devs |-> 0] /\ fails = [d \in Devs |-> 0] /\ broken = {} /\ att = [d \in Devs |-> "free"] /\ nops = 0 /\ act = [op |-> "init"]
+Init == /\ loc = [b \in Balls |-> At(Home)] /\ fired = {} /\ want = 0 /\ rel = [d \in Devs |-> 0] /\ fails = [d \in Devs |-> 0] /\ broken = {} /\ att = [d \in Devs |-> "free"] /\ dest = [d \in Devs |-> Target[d]] /\ wantd = [d \in Devs |-> 0] /\ stray = {} /\ everlost = FALSE /\ nops = 0 /\ act = [op |-> "init"]
 In(p) == {b \in Balls : loc[b] = At(p)}
 Transit(b) == loc[b][1] = "transit"
 To(p) == {b \in Balls : Transit(b) /\ ((loc[b][4] = "ok" /\ loc[b][3] = p) \/ (loc[b][4] = "back" /\ loc[b][2] = p))}
@@ -35,70 +44,82 @@ Budget == nops < MaxOps /\ nops' = nops + 1
 \* the failure counter of a device is only kept where attempts are limited, and saturates at the limit
 IncF(d, n) == IF MaxAtt[d] > 0 /\ n < MaxAtt[d] THEN n + 1 ELSE n
 \* MPF fires the eject coil of d.  C04: never towards a device that has no room for the ball
-Coming(t) == Cardinality(To(t)) + Cardinality({d \in fired : Target[d] = t})
+Coming(t) == Cardinality(To(t)) + Cardinality({d \in fired : dest[d] = t})
 RoomAt(t) == IF t = "pf" THEN TRUE ELSE Cap[t] - Cardinality(In(t)) - Coming(t) > 0
 \* (whether a held ball may be ejected without a release is not something C04 / C05 speak about: not judged)
-Fire(d) == /\ d \notin fired /\ RoomAt(Target[d])
-           /\ fired' = fired \cup {d} /\ act' = [op |-> "fire", d |-> d]
-           /\ UNCHANGED <<loc, want, rel, fails, broken, nops, att>>
+\* t: the target MPF has chosen for this eject (the diverter behind d is set accordingly): one of the device's eject targets
+Fire(d, t) == /\ d \notin fired /\ (t = Target[d] \/ t \in Alt[d]) /\ RoomAt(t)
+              /\ fired' = fired \cup {d} /\ dest' = [dest EXCEPT ![d] = t] /\ act' = [op |-> "fire", d |-> d, t |-> t]
+              /\ UNCHANGED <<loc, want, rel, fails, broken, nops, att, wantd, stray, everlost>>
 \* physics: the fired device's ball leaves towards the target (and may fall back), or does not move at all
 \* (a device that counts by an entrance switch cannot sense a failed eject - the ball never passes the entrance again -
 \*  so failed ejects of such devices are outside what any controller could get right and are not part of the world)
 \* kind "late": as "ok", but the ball takes longer than the eject timeout to arrive (a late confirmation for MPF; for the
 \* world it is a ball on its way like any other)
+\* kind "lost": the ball leaves d and goes astray: it never reaches the device it was fired at, it comes to lie on the
+\* playfield unseen (no switch is hit).  Only ejects towards another device can be lost that way, and only devices without
+\* an attempt limit are driven with it (whether a lost ball counts as a failed attempt is not something the statement fixes)
 Leave(d, b, kind) == /\ d \in fired /\ loc[b] = At(d) /\ (d \in EntranceCounted => kind = "ok")
-                     /\ loc' = [loc EXCEPT ![b] = <<"transit", d, Target[d], IF kind = "late" THEN "ok" ELSE kind>>]
-                     /\ fired' = fired \ {d} /\ act' = [op |-> "leave", d |-> d, kind |-> kind]
+                     /\ (kind = "lost" => d \in Losable /\ dest[d] # "pf" /\ MaxAtt[d] = 0)
+                     /\ loc' = [loc EXCEPT ![b] = IF kind = "lost" THEN <<"transit", d, "pf", "ok">>
+                                                   ELSE <<"transit", d, dest[d], IF kind = "late" THEN "ok" ELSE kind>>]
+                     /\ fired' = fired \ {d} /\ dest' = [dest EXCEPT ![d] = Target[d]] /\ act' = [op |-> "leave", d |-> d, kind |-> kind]
                      /\ rel' = [rel EXCEPT ![d] = IF kind # "back" /\ @ > 0 THEN @ - 1 ELSE @]
                      \* (a late ball is a failed attempt for the device too: its eject timed out)
-                     /\ fails' = [fails EXCEPT ![d] = IF kind = "ok" THEN 0 ELSE IncF(d, @)] /\ UNCHANGED <<want, broken, nops, att>>
-NoLeave(d) == /\ d \in fired /\ d \notin EntranceCounted /\ fired' = fired \ {d} /\ act' = [op |-> "noleave", d |-> d]
-              /\ fails' = [fails EXCEPT ![d] = IncF(d, @)] /\ UNCHANGED <<loc, want, rel, broken, nops, att>>
+                     /\ fails' = [fails EXCEPT ![d] = IF kind = "ok" THEN 0 ELSE IncF(d, @)] /\ UNCHANGED <<want, broken, nops, att, wantd>>
+                     /\ stray' = (IF kind = "lost" THEN stray \cup {b} ELSE stray) /\ everlost' = (everlost \/ kind = "lost")
+NoLeave(d) == /\ d \in fired /\ d \notin EntranceCounted /\ fired' = fired \ {d} /\ dest' = [dest EXCEPT ![d] = Target[d]] /\ act' = [op |-> "noleave", d |-> d]
+              /\ fails' = [fails EXCEPT ![d] = IncF(d, @)] /\ UNCHANGED <<loc, want, rel, broken, nops, att, wantd, stray, everlost>>
 Arrive(b) == /\ Transit(b)
              /\ loc' = [loc EXCEPT ![b] = At(IF loc[b][4] = "ok" THEN loc[b][3] ELSE loc[b][2])]
              /\ act' = [op |-> "arrive", at |-> IF loc[b][4] = "ok" THEN loc[b][3] ELSE loc[b][2]]
-             /\ UNCHANGED <<fired, want, rel, fails, broken, nops, att>>
+             /\ UNCHANGED <<fired, want, rel, fails, broken, nops, att, dest, wantd, stray, everlost>>
 \* a device that has used up its attempts reports itself broken (C05: rather than hanging silently)
 Broken(d) == /\ MaxAtt[d] > 0 /\ fails[d] >= MaxAtt[d] /\ d \notin broken /\ broken' = broken \cup {d}
-             /\ act' = [op |-> "broken", d |-> d] /\ UNCHANGED <<loc, fired, want, rel, fails, nops, att>>
+             /\ act' = [op |-> "broken", d |-> d] /\ UNCHANGED <<loc, fired, want, rel, fails, nops, att, dest, wantd, stray, everlost>>
 \* the player: a ball on the playfield drains into the trough / is shot into the lock
 Drain(b) == /\ Budget /\ loc[b] = At("pf") /\ loc' = [loc EXCEPT ![b] = <<"transit", "pf", Home, "ok">>]
-            /\ want' = (IF Saved THEN want ELSE IF want > 0 THEN want - 1 ELSE 0) /\ act' = [op |-> "drain"] /\ UNCHANGED <<fired, rel, fails, broken, att>>
+            /\ want' = (IF Saved THEN want ELSE IF want > 0 THEN want - 1 ELSE 0) /\ act' = [op |-> "drain"] /\ stray' = stray \ {b} /\ UNCHANGED <<fired, rel, fails, broken, att, dest, wantd, everlost>>
 Shot(b, d) == /\ Budget /\ loc[b] = At("pf") /\ d \in Shootable
               /\ Cap[d] - Cardinality(In(d)) - Coming(d) > 0
               /\ loc' = [loc EXCEPT ![b] = <<"transit", "pf", d, "ok">>] /\ act' = [op |-> "shot", d |-> d]
               \* a ball shot into a hold stays there: one ball less that belongs on the playfield
-              /\ want' = (IF d \in Holding /\ want > 0 THEN want - 1 ELSE want) /\ UNCHANGED <<fired, rel, fails, broken, att>>
+              /\ want' = (IF d \in Holding /\ want > 0 THEN want - 1 ELSE want) /\ UNCHANGED <<fired, rel, fails, broken, att, dest, wantd, stray, everlost>>
 \* a playfield ball rolls over the entrance switch of a full entrance-counted device and bounces back
 Bounce(b, d) == /\ Budget /\ loc[b] = At("pf") /\ d \in Shootable /\ d \in EntranceCounted
                 /\ Cap[d] - Cardinality(In(d)) - Coming(d) = 0 /\ d \notin fired /\ rel[d] = 0
-                /\ act' = [op |-> "bounce", d |-> d] /\ UNCHANGED <<loc, fired, want, rel, fails, broken, att>>
+                /\ act' = [op |-> "bounce", d |-> d] /\ UNCHANGED <<loc, fired, want, rel, fails, broken, att, dest, wantd, stray, everlost>>
 \* the held balls of d are released (release_all event): they belong on the playfield again
 Release(d) == /\ Budget /\ d \in Holding /\ d \notin fired /\ rel[d] = 0 /\ Coming(d) = 0 /\ In(d) # {}
               /\ rel' = [rel EXCEPT ![d] = Cardinality(In(d))] /\ want' = want + Cardinality(In(d))
-              /\ act' = [op |-> "release", d |-> d] /\ UNCHANGED <<loc, fired, fails, broken, att>>
+              /\ act' = [op |-> "release", d |-> d] /\ UNCHANGED <<loc, fired, fails, broken, att, dest, wantd, stray, everlost>>
 \* a ball leaves a device by itself (bounces out, is lost from a lock) and ends up loose on the playfield
 Escape(b, d) == /\ Budget /\ d \in Escapable /\ loc[b] = At(d) /\ d \notin fired
                 /\ loc' = [loc EXCEPT ![b] = <<"transit", d, "pf", "ok">>] /\ act' = [op |-> "escape", d |-> d]
                 \* a ball lost from the trough is one more ball that belongs on the playfield now; a ball lost from a
                 \* device that was going to eject it to the playfield anyway changes nothing
-                /\ want' = (IF d = Home THEN want + 1 ELSE want) /\ UNCHANGED <<fired, rel, fails, broken, att>>
+                /\ want' = (IF d = Home THEN want + 1 ELSE want) /\ UNCHANGED <<fired, rel, fails, broken, att, dest, wantd, stray, everlost>>
 \* a ball is requested for the playfield (ball start, ball save, multiball add, manual request)
-Request == /\ Budget /\ want' = want + 1 /\ act' = [op |-> "request"] /\ UNCHANGED <<loc, fired, rel, fails, broken, att>>
+Request == /\ Budget /\ want' = want + 1 /\ act' = [op |-> "request"] /\ UNCHANGED <<loc, fired, rel, fails, broken, att, dest, wantd, stray, everlost>>
+\* a ball is requested for a device itself (device.request_ball(): a lock wants a ball, a staging device is filled); it may
+\* have to travel over several hops (trough -> launcher -> the device)
+ReqDev(d) == /\ Budget /\ d \in Requestable /\ wantd[d] < Cap[d] /\ want + wantd[d] < Cardinality(Balls)
+             /\ wantd' = [wantd EXCEPT ![d] = @ + 1] /\ act' = [op |-> "reqdev", d |-> d]
+             /\ UNCHANGED <<loc, fired, want, rel, fails, broken, att, dest, stray, everlost>>
 \* A handler of the environment (a diverter that has to move or cool down, a queue_relay_player, a blocking show) holds the
 \* eject_attempt QUEUE event of d back: it is armed (HoldArm), catches the next attempt MPF posts for d (Held: queue.wait())
 \* and lets it go some time later (Unhold: queue.clear()) - while balls keep moving: the target of the held eject may fill
 \* up or empty in the meantime.  The fire that follows is judged like every other one (guard of Fire: room NOW, not room
 \* when the attempt was announced).  When and whether MPF posts the attempt is its own business: Held is not constrained.
 HoldArm(d) == /\ Budget /\ d \in Holdable /\ att[d] = "free" /\ att' = [att EXCEPT ![d] = "armed"]
-              /\ act' = [op |-> "hold", d |-> d] /\ UNCHANGED <<loc, fired, want, rel, fails, broken>>
+              /\ act' = [op |-> "hold", d |-> d] /\ UNCHANGED <<loc, fired, want, rel, fails, broken, dest, wantd, stray, everlost>>
 Held(d) == /\ att[d] = "armed" /\ att' = [att EXCEPT ![d] = "held"]
-           /\ act' = [op |-> "held", d |-> d] /\ UNCHANGED <<loc, fired, want, rel, fails, broken, nops>>
+           /\ act' = [op |-> "held", d |-> d] /\ UNCHANGED <<loc, fired, want, rel, fails, broken, nops, dest, wantd, stray, everlost>>
 Unhold(d) == /\ att[d] = "held" /\ att' = [att EXCEPT ![d] = "free"]
-             /\ act' = [op |-> "unhold", d |-> d] /\ UNCHANGED <<loc, fired, want, rel, fails, broken, nops>>
-NextBase == \/ \E d \in Devs : Fire(d) \/ NoLeave(d) \/ \E b \in Balls, k \in {"ok", "back", "late"} : Leave(d, b, k)
+             /\ act' = [op |-> "unhold", d |-> d] /\ UNCHANGED <<loc, fired, want, rel, fails, broken, nops, dest, wantd, stray, everlost>>
+NextBase == \/ \E d \in Devs : NoLeave(d) \/ (\E t \in Devs \cup {"pf"} : Fire(d, t)) \/ \E b \in Balls, k \in {"ok", "back", "late", "lost"} : Leave(d, b, k)
             \/ \E b \in Balls : Arrive(b) \/ Drain(b) \/ \E d \in Devs : Shot(b, d) \/ Escape(b, d) \/ Bounce(b, d)
-            \/ \E d \in Devs : Release(d) \/ Broken(d)
+            \/ \E d \in Devs : Release(d) \/ Broken(d) \/ ReqDev(d)
             \/ Request
 Next == \/ NextBase
         \/ \E d \in Devs : HoldArm(d) \/ Held(d) \/ Unhold(d)
@@ -107,10 +128,19 @@ Spec == Init /\ [][Next]_vars
 SpecBase == Init /\ [][NextBase]_vars
 \* ---- statements of C04 / C05 over observed MPF counts ------------------------------------------------------
 Quiet == fired = {} /\ (\A b \in Balls : ~Transit(b)) /\ \A d \in Devs : att[d] # "held"
-Avail == Cardinality(Balls) - Cardinality(UNION {In(d) : d \in Holding \ Sourcing})      \* balls not held out of reach
+Min(a, b) == IF a <= b THEN a ELSE b
+RECURSIVE SumKept(_)
+\* balls that were requested for a device and lie in it: they belong there
+Kept(d) == Min(wantd[d], Cardinality(In(d)))
+SumKept(S) == IF S = {} THEN 0 ELSE LET d == CHOOSE x \in S : TRUE IN Kept(d) + SumKept(S \ {d})
+Avail == Cardinality(Balls) - Cardinality(UNION {In(d) : d \in Holding \ Sourcing}) - SumKept(Requestable) - Cardinality(stray)
+   \* balls not held out of reach, not kept where they were asked for, not astray (a ball that went astray is not a delivered
+   \* request for MPF unless the path it was on ended on the playfield: both views are accepted)
+\* a request of a device for itself is unserved although a ball lies in the trough (a path exists in every topology driven)
+DevUnserved(d) == wantd[d] > Cardinality(In(d))
 Served == IF want <= Avail THEN want ELSE Avail
 \* at rest every requested ball is on the playfield (if there are that many balls) and nothing else is
 PfAtRest == Cardinality(In("pf"))
 Conserved == \A b \in Balls : loc[b][2] \in Devs \cup {"pf"} /\ loc[b][3] \in Devs \cup {"pf"}
-TypeOK == want >= 0 /\ fired \subseteq Devs /\ Conserved /\ \A d \in Devs : rel[d] >= 0 /\ rel[d] <= Cap[d] /\ att[d] \in {"free", "armed", "held"} /\ (att[d] # "free" => d \in Holdable)
+TypeOK == want >= 0 /\ fired \subseteq Devs /\ Conserved /\ \A d \in Devs : rel[d] >= 0 /\ rel[d] <= Cap[d] /\ att[d] \in {"free", "armed", "held"} /\ (att[d] # "free" => d \in Holdable) /\ dest[d] \in Devs \cup {"pf"} /\ wantd[d] \in 0..Cap[d] /\ stray \subseteq Balls /\ everlost \in BOOLEAN
 =============================================================================
